@@ -455,7 +455,7 @@ func (r *Run) c06Remap(sums *Summaries) {
 		res := c06ResultSites(p, flat)
 		isTraits = func(t *Term, _ int) bool {
 			for _, rs := range res {
-				if rs.traits != nil && stripPtr(t.V) == rs.traits {
+				if rs.traits != nil && c06ThroughCells(t.V) == rs.traits {
 					return true
 				}
 			}
@@ -463,7 +463,7 @@ func (r *Run) c06Remap(sums *Summaries) {
 		}
 		isMap = func(t *Term, _ int) bool {
 			for _, rs := range res {
-				if rs.nodeMap != nil && stripPtr(t.V) == rs.nodeMap {
+				if rs.nodeMap != nil && c06ThroughCells(t.V) == rs.nodeMap {
 					return true
 				}
 			}
